@@ -154,7 +154,7 @@ def main(argv):
                 names = t1.get(rel, {}).get('words', set())
                 is_t1 = short in names and not short.startswith('__') or (short.startswith('__') and qual.split('.')[0] in names and short in names)
                 status = ('T1+T2' if is_t1 and ex else 'T2' if ex else 'T1' if is_t1 else 'outside')
-                rows.append({'file': rel, 'function': qual, 'line': first, 'lines': len(lines), 'executed': len(ex),
+                rows.append({'file': rel, 'function': qual, 'line': first, 'lines': len(lines), 'executed': len(ex), 'missing': sorted(lines - ex),
                              'properties': by, 't1': bool(is_t1), 'status': status})
     os.makedirs(os.path.join(VERIF, 'coverage'), exist_ok=True)
     head = subprocess.run('git -C %s rev-parse --short HEAD' % REPO, shell=True, stdout=subprocess.PIPE, text=True).stdout.strip()
@@ -172,6 +172,10 @@ def main(argv):
         o.write('## Functions no tie reaches (%d)\n\n' % len(outside))
         for r in outside:
             o.write('* `%s:%d` `%s` (%d lines)\n' % (r['file'], r['line'], r['function'], r['lines']))
+        part = [r for r in rows if r['status'] != 'outside' and r['missing']]
+        o.write('\n## Functions a check runs only in part (%d) — the lines never executed\n\n' % len(part))
+        for r in part:
+            o.write('* `%s` `%s`: %d/%d, never run: %s\n' % (r['file'], r['function'], r['executed'], r['lines'], ', '.join(map(str, r['missing']))))
         o.write('\n## Per function\n\n| file | function | lines run | status | properties |\n|---|---|---|---|---|\n')
         for r in rows:
             o.write('| %s | `%s` | %d/%d | %s | %s |\n' % (r['file'].replace('prometheus_client/', ''), r['function'], r['executed'], r['lines'],
